@@ -10,6 +10,7 @@ import glob, json, os, subprocess, time
 from vlib import e2e
 
 POLL = 0.002
+SCENARIO_TIMEOUT = 120.0      # one controlled scenario (all its processes); a TimeoutError is reported as a broken tie
 
 
 class Proc:
@@ -506,12 +507,16 @@ class ScenarioRun:
             sched = list(self.sc["schedule"])
             n = len(self.sc["procs"])
             guard = 0
+            t_start = time.time()
             while any(c is not None for c in self.cur):
                 pid = sched.pop(0) if sched else (guard % n)
                 if not sched:
                     guard += 1
                 if guard > 400:
                     raise TimeoutError("schedule does not terminate")
+                if time.time() - t_start > SCENARIO_TIMEOUT:
+                    raise TimeoutError(f"scenario not finished after {SCENARIO_TIMEOUT} s: processes at "
+                                       f"{[(c.tag, c.at) for c in self.cur if c is not None]}")
                 self.step(pid)
         finally:
             self.ctl.kill_all()
